@@ -76,7 +76,23 @@ def h_jouguet(h, part):
             hy.findJouguetVelocity()
         except _Captured:
             pass
+        if h.mode == "fold":
+            return
         if h.mode != "sym":
+            # plain floats: finite-difference version on the default (bag-like) EOS; not
+            # meaningful when replaying a solver model (UF values only at the model's points)
+            if any(k.startswith(("PL@", "WL@", "CL@", "PH@", "WH@")) for k in h.values):
+                return
+            x = 1.3 * float(Tn)
+            def vp2(t):
+                pl, el = th.pLowT(t), th.eLowT(t)
+                return (pH - pl) * (pH + el) / ((eH - el) * (eH + pl))
+            hh = 1e-6 * x
+            fd = (vp2(x + hh) - vp2(x - hh)) / (2 * hh)
+            den = (eH - th.eLowT(x)) * (eH + th.pLowT(x))
+            got = closure["f"](x)
+            h.prove("the function whose zero is sought is the numerator of d(v+^2)/dT-", None,
+                    conc=lambda: abs(got - fd * den * den) <= 1e-5 * (abs(got) + abs(fd * den * den)))
             return
         x = h.real("tm_probe", 0.01, 1e4)
         pLx, eLx = th.pLowT(x), th.eLowT(x)
@@ -245,8 +261,8 @@ AX = [arctan_axioms, axioms.pow_axioms]
 
 HARNESSES = [
     HarnessDef("jouguet-general", h_jouguet, [dict(part="closure"), dict(part="result")], max_paths=60,
-               timeout_s=60, axioms=AX, encodes=[HY.Hydrodynamics.findJouguetVelocity],
-               random_validation=0, concrete_alarms=False, feas_timeout_ms=200),
+               timeout_s=30, axioms=AX, encodes=[HY.Hydrodynamics.findJouguetVelocity],
+               random_validation=1, concrete_alarms=False, feas_timeout_ms=200),
     HarnessDef("jouguet-template", h_template_vj, [dict()], max_paths=20, timeout_s=120,
                encodes=[HT.HydrodynamicsTemplateModel.findJouguetVelocity, HT.HydrodynamicsTemplateModel.getVp],
                random_validation=3),
